@@ -21,6 +21,7 @@ ASSUMPTIONS = ["E2 small-curve retargeting (see C03)", "reference predicate vf/r
                "vf/ref/der_ref.py; a DER string valid only under a lenient reading may be accepted or rejected"]
 OBLIGATIONS = {
     "history_sequences": "operation sequences (non-initial process states) explored",
+    "concurrent_first_calls": "interleavings of two concurrent first sig_verify calls explored",
     "infinity_tuple": "a tuple with u1*G + u2*P = infinity was offered",
     "s_complement": "a valid signature with s replaced by n-s was offered (must be accepted)",
     "r_alias": "r + n (same residue, out of range) was offered",
@@ -148,7 +149,35 @@ def chk_lows(case):
 CASES = {"point": chk_point, "tuple": chk_tuple, "lows": chk_lows}
 
 
+def _concur_setup(case):
+    """two threads whose first library calls are concurrent sig_verify calls (keys d and n-d share x)"""
+    import bits
+    C = _curve(case)
+    calls, expect = [], []
+    for sig, pk, msg in case["calls"]:
+        sig, pk, msg = bytes.fromhex(sig), bytes.fromhex(pk), bytes.fromhex(msg)
+        calls.append(lambda sig=sig, pk=pk, msg=msg: bits.sig_verify(sig, pk, msg))
+        P = sec1_strict(C, pk)
+        rs = D.strict_decode(sig[:-1])
+        z = int.from_bytes(h256(msg + sig[-1].to_bytes(4, "little")), "big")
+        expect.append(P is not None and rs is not None and ecdsa_verify(C, rs[0], rs[1], P, z))
+
+    def judge(results, errors):
+        out = []
+        for i, exp in enumerate(expect):
+            acc_ = (i not in errors) and results[i] == "OK"
+            if acc_ != exp:
+                out.append((f"C02/concurrent/{'invalid-accepted' if acc_ else 'valid-rejected'}",
+                            f"thread {i}: sig_verify = {errors.get(i, results[i])!r}, reference says {'valid' if exp else 'invalid'}"))
+        return out
+    return calls, judge
+
+
 def run_case(kind, case):
+    if kind == "concur":
+        from vf import concur
+        calls, judge = _concur_setup(case)
+        return concur.replay_calls(calls, ("bits/utils.py", "bits/ecmath.py", "bits/pem.py"), case["choices"], judge)
     if kind == "seq":
         from vf import seqexplore
         return seqexplore.replay(run_case, case)
@@ -226,6 +255,8 @@ def jobs(tier, seed):
     js.append({"name": "secp/lows", "part": "real-lows", "weight": 4})
     from vf.runner import seq_jobs
     js += seq_jobs(4, curve=t43, weight=4)
+    for i in range(2):
+        js.append({"name": f"concurrent/{i}", "part": "concur", "curve": t43, "idx": i, "weight": 10})
     return js
 
 
@@ -255,6 +286,23 @@ def run_job(job):
     part = job["part"]
     cv = job.get("curve")
     seed = job["seed"]
+    if part == "concur":
+        from vf import concur
+        C = smallcurve.curve(cv)
+        msg, flag = b"m", 1
+        z = int.from_bytes(h256(msg + flag.to_bytes(4, "little")), "big")
+        tup = {}
+        for d in (3, C.n - 3):
+            P = C.mul(d, C.G)
+            tup[d] = ((D.encode(*valid_sig_for(C, d, z)) + bytes([flag])).hex(), enc_pk(P, True).hex(), msg.hex())
+        flipped = (tup[3][0], (bytes([bytes.fromhex(tup[3][1])[0] ^ 1]) + bytes.fromhex(tup[3][1])[1:]).hex(), msg.hex())
+        scen = [[tup[3], tup[C.n - 3]], [tup[3], flipped]][job["idx"]]
+        case = {"curve": cv, "calls": [list(t) for t in scen]}
+        calls, judge = _concur_setup(case)
+        ex = concur.explore_calls(acc, calls, ("bits/utils.py", "bits/ecmath.py", "bits/pem.py"), 1 if job["tier"] == "quick" else 2, judge, "concur", case)
+        acc.ob("concurrent_first_calls", ex.executions)
+        acc.sample({"concurrent_sig_verify": job["idx"], "executions": ex.executions})
+        return acc.result()
     if part == "point":
         C = smallcurve.curve(cv)
         pts = C.all_points()
